@@ -3,6 +3,7 @@ package main
 // The service both peers expose, and the remote definition both peers implement.
 
 import (
+	"time"
 	"strings"
 	"context"
 	"errors"
@@ -233,6 +234,17 @@ func (s *Svc) Tick(ctx context.Context, n int, cb func(ctx context.Context) (int
 	return sum, nil
 }
 
+// TimedClosure invokes cb once under a context of its own that expires after ms milliseconds and reports
+// what the invocation returned and how long it took.
+func (s *Svc) TimedClosure(ctx context.Context, ms int, cb func(ctx context.Context, i int, str string) (string, error)) (string, error) {
+	s.log(ctx, "TimedClosure", fmt.Sprint(ms))
+	c2, cancel := context.WithTimeout(ctx, time.Duration(ms)*time.Millisecond)
+	defer cancel()
+	t0 := time.Now()
+	v, err := cb(c2, 0, "timed")
+	return fmt.Sprintf("%s|%v|%d", v, err, time.Since(t0).Milliseconds()), nil
+}
+
 // WithClosure invokes cb n times (sequentially or concurrently) and returns what it returned.
 func (s *Svc) WithClosure(ctx context.Context, n int, conc bool, cb func(ctx context.Context, i int, str string) (string, error)) ([]string, error) {
 	s.log(ctx, "WithClosure", fmt.Sprintf("%d,%v", n, conc))
@@ -449,6 +461,7 @@ type Remote struct {
 	Tree        func(ctx context.Context, depth int) (int, error)
 	WithClosure func(ctx context.Context, n int, conc bool, cb func(ctx context.Context, i int, str string) (string, error)) ([]string, error)
 	Tick        func(ctx context.Context, n int, cb func(ctx context.Context) (int, error)) (int, error)
+	TimedClosure func(ctx context.Context, ms int, cb func(ctx context.Context, i int, str string) (string, error)) (string, error)
 	KeepClosure func(ctx context.Context, slot int, cb func(ctx context.Context, i int, str string) (string, error)) error
 	KeepAndGate func(ctx context.Context, slot int, gate int, cb func(ctx context.Context, i int, str string) (string, error)) error
 	KeepTwo      func(ctx context.Context, slot int, a func(ctx context.Context, i int, str string) (string, error), b func(ctx context.Context, i int, str string) (string, error)) (string, error)
